@@ -90,7 +90,7 @@ Written(r, st) ==
     [] r.e = "IterSet" -> Write(st, LAMBDA b : stdT[b] = r.pos, LAMBDA b : 1, r.vals)
 
 IsWrite(r) == r.e \in {"SetBin", "SetSino", "SetView", "SetSegV", "SetSegS", "SetRel", "Fill", "FillFrom", "FillIter", "IterSet", "IterCopy"}
-IsRead(r) == r.e \in {"GetBin", "GetSino", "GetView", "GetSegV", "GetSegS", "GetRel", "CopyTo"}
+IsRead(r) == r.e \in {"GetBin", "GetSino", "GetView", "GetSegV", "GetSegS", "GetRel", "CopyTo", "CloneMem"}
 
 \* "a value written through any access path ... no other bin changes"; "Requests outside the index ranges are
 \* reported as errors instead of touching other data"
@@ -105,7 +105,7 @@ ReadInRange(r) ==
     [] r.e = "GetView" -> SegOk(g, r.seg) /\ ViewOk(g, r.view) /\ TofOk(g, r.tof)
     [] r.e \in {"GetSegV", "GetSegS"} -> SegOk(g, r.seg) /\ TofOk(g, r.tof)
     [] r.e = "GetRel" -> SegOk(g, r.seg) /\ ViewOk(g, r.view) /\ TofOk(g, r.tof)
-    [] r.e = "CopyTo" -> TRUE
+    [] r.e \in {"CopyTo", "CloneMem"} -> TRUE
     [] OTHER -> FALSE
 
 \* "is read back unchanged through every other path": the returned container is the projection of the array
@@ -125,7 +125,8 @@ ReadResultOk(r) ==
     [] r.e = "GetRel" -> /\ PairsOk(g, RelPairs(r))
                          /\ \E i \in 1..Len(r.pairs) : RelPairs(r)[i] = << r.view, r.seg, r.tof >>
                          /\ ReadOk(store, LAMBDA b : InRelated(b, RelPairs(r)), LAMBDA b : IdxRelated(g, RelPairs(r), b), r.vals, RelSize(g, RelPairs(r)))
-    [] r.e = "CopyTo" -> ReadOk(store, LAMBDA b : TRUE, LAMBDA b : stdT[b] + 1, r.vals, c.n)
+    \* copy_to(iterator), and a copy ProjDataInMemory(const ProjData&) seen through its iterators: standard order
+    [] r.e \in {"CopyTo", "CloneMem"} -> ReadOk(store, LAMBDA b : TRUE, LAMBDA b : stdT[b] + 1, r.vals, c.n)
 ReadCallOk(r) == IF ReadInRange(r) THEN ~r.err /\ ReadResultOk(r) ELSE r.err
 
 \* ---- header + data re-read through ProjData::read_from_file while the writer is still open
@@ -155,6 +156,15 @@ ReopenCore(r) ==
 ReopenExtra(r) == /\ r.examx = r.examx0
                   /\ (NuclideGiven(r.exam0) /\ FramesGiven(r.exam0) => r.examEq)   \* STIR's own ExamInfo::operator==
 ReopenOk(r) == ReopenCore(r) /\ ReopenExtra(r)
+\* ProjData::write_to_file (a new header + data pair written from the store) and ProjData::read_from_file of that pair:
+\* "Writing data with its header and reading the pair back yields equal geometry, exam information and values"
+\* (the layout of that new file is the writer's choice and not compared)
+WriteToFileCore(r) ==
+  /\ ~c.fresh /\ ~r.err /\ ~r.verr
+  /\ r.geo = r.geo0 /\ r.pdiEq
+  /\ ExamCoreEq(r.exam0, r.exam)
+  /\ ReadOk(store, LAMBDA b : TRUE, LAMBDA b : stdT[b] + 1, r.vals, c.n)
+WriteToFileOk(r) == WriteToFileCore(r) /\ ReopenExtra(r)
 
 Explains(r) ==
   IF r.e = "Config" THEN ConfigOk(r)
@@ -162,14 +172,16 @@ Explains(r) ==
   ELSE IF IsWrite(r) THEN WriteOk(r) /\ ObsOk(r, c, NewStore(r), posT)
   ELSE IF IsRead(r) THEN ReadCallOk(r) /\ ObsOk(r, c, store, posT)
   ELSE IF r.e = "Reopen" THEN ReopenOk(r) /\ ObsOk(r, c, store, posT)
+  ELSE IF r.e = "WriteToFile" THEN WriteToFileOk(r) /\ ObsOk(r, c, store, posT)
   ELSE FALSE       \* Abort and unknown events are never accepted
 
 \* An unexplained line is attributed to a known finding only by its exact signature (known_findings.jsonl);
-\* C02-examinfo: a Reopen that is fine in every other respect but loses calibration factor / study start time
+\* C02-examinfo: a Reopen / WriteToFile that is fine in every other respect but loses calibration factor / study start time
 \* C02-oorseg: get_viewgram for a segment number outside the range returns an empty viewgram without error
 \*   (nothing else wrong: no data touched)
 Classify(r) ==
-  IF c # NoCfg /\ r.e = "Reopen" /\ ReopenCore(r) /\ ObsOk(r, c, store, posT) /\ r.examx # r.examx0
+  IF c # NoCfg /\ ((r.e = "Reopen" /\ ReopenCore(r)) \/ (r.e = "WriteToFile" /\ WriteToFileCore(r)))
+     /\ ObsOk(r, c, store, posT) /\ r.examx # r.examx0
      /\ (r.examx0.calib > 0 \/ r.examx0.start > 0) THEN "C02-examinfo"
   ELSE IF c # NoCfg /\ r.e = "GetView" /\ ~SegOk(g, r.seg) /\ ViewOk(g, r.view) /\ TofOk(g, r.tof) /\ ~r.err /\ r.vals = << >>
           /\ ObsOk(r, c, store, posT) THEN "C02-oorseg"
